@@ -27,8 +27,9 @@ def pytest_runtest_call(item):
     tag = hashlib.sha1(item.nodeid.encode()).hexdigest()[:12]
     path = os.path.join(snapdir, tag + ".sqlite3")
     try:
+        # not Connection.backup(): with the test's write transaction still open it waits for ever
         dst = sqlite3.connect(path)
-        conn.backup(dst)
+        dst.executescript("\n".join(conn.iterdump()))
         dst.commit()
         dst.close()
         with open(os.path.join(snapdir, tag + ".txt"), "w") as f:
